@@ -64,7 +64,7 @@ CLAIMS = {
  "C13": ("Theorems (Properties/C13.v): for EVERY shape in the decidable class good_names (emitted definition names pairwise distinct, snake-cased member names legal and distinct, variant names distinct, tuples <= 12 wide) the generated items form a well-formed module "
          "(every referenced type is standard at its arity or defined exactly once; names legal) - proved by structural induction over all shapes; wf_module = header_ok under that class. C13_header_ok: the header written since fix F12 can be include!d in a module. Five `_refuted` theorems exhibit the remaining defect classes of the code "
          "(F15 repeated sub-shape; KF4 collision; illegal / clashing member names; variant clash; 13-tuple; the F12 header and F13 Optional<Vec classes are repaired in /repo and their witnesses became positive theorems); C13_gen_wf_after_F15 proves the repaired (deduplicating) emission needs only the local conditions. Correspondence: render hook and compile_json file bytes byte-for-byte on level-1, corner, random and inferred shapes; "
-         "oracle: independent name-resolution check = extracted wf_items on the parsed REAL text = model prediction, every case; thorough: real rustc per case and one-crate batches agree with wf_items / wf_module.", "6/C13"),
+         "oracle: independent name-resolution check = extracted wf_items on the parsed REAL text = model prediction, every case; a real crate whose build.rs calls compile_json and whose modules use include_json_shape! (harness/macroprobe --features real) must build on every run; thorough: real rustc per case and one-crate batches agree with wf_items / wf_module.", "6/C13"),
  "C14": ("Theorem C14_decode_gen_partial: for EVERY shape in the decidable class decodable, reading the generated items back (decode) yields the shape with member names snake-cased (erase) - structural induction, no bounds; three `_refuted` witnesses "
          "(root flag dropped, name collision, 1-tuples) and C14_opt_array_decodes (nested optional arrays decode since fix F13). Correspondence: render byte-for-byte; parsed real text = model item list; oracle: extracted decode on the implementation's real output vs erase(shape), classified by the same decodable predicate.", "6/C14"),
  "C15": ("Theorem C15_deser_sources_partial (structural induction over ALL shapes, no bounds): under the model of serde's derived (de)serialization for exactly the generated item forms, every member document (Sem.mem) without a repeated member name of every shape in the decidable class "
@@ -73,7 +73,8 @@ CLAIMS = {
          "(3089 pairs, model = real outcome incl. re-serialized document); that run found the unit-struct class.", "6/C15"),
  "C16": ("Theorems (Properties/C16.v): out_path = macro_path for EVERY non-absolute collection name, dots included (C16_paths_agree, the code after fix F14; the dotted-name defect of the old path is kept as C16_pre_F14_dotted_refuted); equal shapes get equal names, injectivity refuted (KF4) and the colliding class characterised (C16_name_collision_class: equal constructors, flags and member / variant / element types in order give equal names, member names never enter); a successful compile_json_m writes exactly one file = header ++ returned text at out_path; "
          "read / inference errors and panics write nothing; empty source lists yield an error - for any inference function. Correspondence: shape_name / shape_representation / render hooks, convert_case Snake/Pascal and CRC-32 {:X} on ~50k strings, compile_json (real files, OUT_DIR set/unset/dotted/spaced) against compile_json_m incl. stdout lines; "
-         "oracle: bytes twice in one process and in two processes, single file at the macro's path, no file on error, name collision search.", "6/C16"),
+         "the include macro itself is OBSERVED on every run (harness/macroprobe, built against /repo: a local macro_rules! include captures the path expression that include_json_shape! hands to include! for 11 collection names, compared with the model's macro_path and with the file compile_json really writes; plus a crate whose build.rs calls compile_json and whose modules use the real macro, as documented). "
+         "oracle: bytes twice in one process and in two processes, single file at the macro's observed path, no file on error, name collision search.", "6/C16"),
 }
 PARTIAL = {
  "C04": "The theorem needs Forall scalar s (model characters are unbounded naturals; a Rust &str only holds scalars: witness C04_scalar_needed). The tie model <-> implementation is the executed correspondence. ",
